@@ -174,7 +174,8 @@ class Points:
         return "{}:\n{}".format(self.__class__.__name__, self.coordinates)
 
     def _compute_slice(self, val):
-        if isinstance(val, tuple):
+        is_tuple = isinstance(val, tuple)
+        if is_tuple:
             val = list(val)
 
         if isinstance(val, (np.ndarray, torch.Tensor)) and val.dtype in (
@@ -211,6 +212,10 @@ class Points:
                         out_idxs += rng[slc[var]]
                     val[-1] = out_idxs
 
+        if is_tuple:
+            # a list would be read as indices of the first axis if it is
+            # shorter than the number of tensor axes
+            val = tuple(val)
         return val, out_space
 
     def __getitem__(self, val):
